@@ -123,7 +123,7 @@ CLAIMED = {
         technique='Coq proof (induction over strings) + extracted-model correspondence + CLI subprocess runs',
         design='5/C15'),
     'C10': dict(
-        text='CLAUSES 1, 3 AND 4 PROVED for EVERY limit on trees of block quotes and lists of any depth (any markers, several items, tight or loose) whose paragraphs are lines of plain words, with fenced code, ATX headings and thematic breaks between them (C10_tree_reflow; whole pipeline model: parse, render with the limit, parse again, render to HTML / reflow again): the renderer writes the same tree with the words of every paragraph regrouped under the budget its containers leave; that tree is proved to lie in the C03 fragment again, so the text parses to it; its HTML is the original\'s up to line endings exchanged for spaces; reflowing again gives the same text; every paragraph line of the output stands behind a container prefix of known width and fits the limit with it or is that prefix and one single word (C10_tree_long_lines). (First proved for top-level paragraphs of plain words: C10_plain_words_reflow.) Theorems for ALL fragment lists and ALL limits about a Gallina model of the Markdown renderer\'s wrapping core: every produced line fits the '
+        text='CLAUSES 1, 3 AND 4 PROVED for EVERY limit on trees of block quotes and lists of any depth (any markers, several items, tight or loose) whose paragraphs are lines of plain words, with fenced code, ATX headings and thematic breaks between them (C10_tree_reflow; whole pipeline model: parse, render with the limit, parse again, render to HTML / reflow again): the renderer writes the same tree with the words of every paragraph regrouped under the budget its containers leave; that tree is proved to lie in the C03 fragment again, so the text parses to it; its HTML is the original\'s up to line endings exchanged for spaces; reflowing again gives the same text; every paragraph line of the output stands behind a container prefix of known width and fits the limit with it or is that prefix and one single word (C10_tree_long_lines); the same with normalize_whitespace=True, where every list marker is followed by one space (C10_tree_reflow_normalized). (First proved for top-level paragraphs of plain words: C10_plain_words_reflow.) Theorems for ALL fragment lists and ALL limits about a Gallina model of the Markdown renderer\'s wrapping core: every produced line fits the '
              'limit or is one single unbreakable word; the lines are groups of exactly the words (none dropped, added or reordered); the result depends on '
              'the fragments only through their words; code/HTML blocks, tables, ATX headings are rendered independently of the limit (all trees); quotes and '
              'list items shrink the budget by exactly the width of the prefix they add (all trees). Model tied by the real classmethods on synthetic '
